@@ -208,6 +208,56 @@ function noExtra(s, v) {
     default: return true;
   }
 }
+// "consists only of declared parts" (C03): like noExtra, but a union hands back the MERGE of the projections of all members that accept the
+// value, so at a union position a key is declared when some accepting member declares it (and the value under it is declared-only for that member)
+function declaredOnly(s, v, g = 0) {
+  if (g > 40) return true;
+  switch (s.t) {
+    case 'object': {
+      if (!isObj(v) || Array.isArray(v)) return true;
+      const declared = Object.keys(s.props);
+      const open = s.index && s.index.length > 0;
+      for (const k of Object.keys(v)) if (!declared.includes(k) && !open) return false;
+      for (const k of declared) if (Object.prototype.hasOwnProperty.call(v, k) && !declaredOnly(s.props[k], v[k], g + 1)) return false;
+      if (open) for (const k of Object.keys(v)) if (!declared.includes(k)) { if (!s.index.some((p) => declaredOnly(p.value, v[k], g + 1))) return false; }
+      return true;
+    }
+    case 'optional': return v == null || declaredOnly(s.x, v, g + 1);
+    case 'array': return !Array.isArray(v) || v.every((e) => declaredOnly(s.x, e, g + 1));
+    case 'tuple': return !Array.isArray(v) || v.every((e, i) => (i < s.prefix.length ? declaredOnly(s.prefix[i], e, g + 1) : s.rest ? declaredOnly(s.rest, e, g + 1) : true));
+    case 'anyof': {
+      const ms = s.xs.filter((b) => acceptsDefault(b, v));
+      if (ms.some((b) => declaredOnly(b, v, g + 1))) return true;
+      if (!isPlain(v)) return false;
+      const objs = ms.map((b) => resolveSpec(b)).filter((m) => m.t === 'object');
+      for (const k of Object.keys(v)) {
+        let ok = false;
+        for (const m of objs) {
+          if (Object.prototype.hasOwnProperty.call(m.props, k)) { if (declaredOnly(m.props[k], v[k], g + 1)) { ok = true; break; } }
+          else if (m.index && m.index.some((p) => declaredOnly(p.value, v[k], g + 1))) { ok = true; break; }
+        }
+        if (!ok) return false;
+      }
+      return true;
+    }
+    case 'allof': {
+      if (!isObj(v) || Array.isArray(v)) return true;
+      const members = s.xs.map((m) => resolveSpec(m));
+      if (!members.every((m) => m.t === 'object')) return s.xs.some((m) => resolveSpec(m).t === 'any') || s.xs.every((m) => declaredOnly(m, v, g + 1));
+      const declared = new Set();
+      let open = false;
+      for (const m of members) { Object.keys(m.props).forEach((k) => declared.add(k)); if (m.index && m.index.length) open = true; }
+      if (!open) for (const k of Object.keys(v)) if (!declared.has(k)) return false;
+      for (const k of Object.keys(v)) { const ds = members.filter((m) => Object.prototype.hasOwnProperty.call(m.props, k)); if (ds.length && !ds.some((m) => declaredOnly(m.props[k], v[k], g + 1))) return false; }
+      return true;
+    }
+    case 'disc': return noExtra(s, v);
+    case 'ref': return declaredOnly(job.defs[s.name], v, g + 1);
+    case 'map': return !(v instanceof Map) || [...v].every(([k, x]) => declaredOnly(s.k, k, g + 1) && declaredOnly(s.v, x, g + 1));
+    case 'set': return !(v instanceof Set) || [...v].every((x) => declaredOnly(s.x, x, g + 1));
+    default: return true;
+  }
+}
 // ---------------------------------------------------------------------------------------------- reference membership (C01)
 // TypeScript membership under beff's runtime conventions, written against the *expected* type of the program (derived
 // independently of the compiler) and using no code of the runtime under test.  Symbol-aware through the $S operators.
@@ -422,7 +472,7 @@ function body(input) {
         projection(data, input, '$', out);
         for (const o of out.slice(0, 2)) V('C03', `parsed data is not a projection of the input: ${o}; data=${show(data)} (${tag})`);
         // "consists only of declared parts of the input": the data carries no key the type does not declare at that position (reference: the spec)
-        if (!out.length && job.spec && !noExtra(job.spec, data)) V('C03', `parsed data carries a key the type does not declare there: data=${show(data)} (${tag})`);
+        if (!out.length && job.spec && !declaredOnly(job.spec, data)) V('C03', `parsed data carries a key the type does not declare there: data=${show(data)} (${tag})`);
         let v2;
         try { v2 = parser.validate(data, opts); } catch (e) { if (e instanceof $S.NeedsRefinement || e instanceof $S.Unmodelled || e instanceof $S.Infeasible) throw e; v2 = 'throws ' + e.message; }
         if (v2 !== true) V('C03', `parsed data ${show(data)} is not accepted by the same validator (${v2}) (${tag})`);
